@@ -239,15 +239,148 @@ impl vstd::std_specs::convert::FromSpecImpl<Linter> for Vec<Lint> {
 pub assume_specification[ <Linter as core::default::Default>::default ]() -> (r: Linter)
 	ensures r.lints@.len() == 0 && idle(r);
 
-// ---- trusted (step 1): Expression / Reference are opaque here; their real `lint` (linter.rs:243-442) pushes only
-// IntegerLiteralTruncation and never touches the two flags.
-impl Lintable for Expression {
-	open spec fn pre(self, l: Linter) -> bool { true }
-	open spec fn post(self, l0: Linter, l1: Linter) -> bool { expr_post(l0, l1) }
-	#[verifier::external_body] fn lint(&self, linter: &mut Linter) { unimplemented!() }
+// ---- trusted: derived Clone of Identifier is the identity (only needed as supertrait of value_type::Identifier; same as spec/ast_common_spec.rs)
+impl Clone for Identifier { #[verifier::external_body] fn clone(&self) -> (r: Self) ensures r == *self { unimplemented!() } }
+// the sliced `impl PartialEq for Identifier` (needed as supertrait only, never called by the linter) is given no spec: obeys_eq_spec == false
+impl vstd::std_specs::cmp::PartialEqSpecImpl for Identifier {
+	open spec fn obeys_eq_spec() -> bool { false }
+	open spec fn eq_spec(&self, other: &Self) -> bool { true }
 }
-impl Lintable for Reference {
-	open spec fn pre(self, l: Linter) -> bool { true }
-	open spec fn post(self, l0: Linter, l1: Linter) -> bool { expr_post(l0, l1) }
-	#[verifier::external_body] fn lint(&self, linter: &mut Linter) { unimplemented!() }
+
+// ---------------------------------------------------------------------------------------------
+// C09, range arms of the linter: "a value outside the range of its type always raises the truncation lint
+// L1142 while in-range values never do".   Range of a type, from its width and signedness
+// (bits / signed / pow2: the same definitions as in spec/u_vt_spec.rs, against which min_i128 / max_u128 are verified):
+// ---------------------------------------------------------------------------------------------
+pub open spec fn bits<I: value_type::Identifier>(t: value_type::ValueType<I>) -> nat {
+	match t {
+		value_type::ValueType::Int8 | value_type::ValueType::Uint8 | value_type::ValueType::Char8 => 8,
+		value_type::ValueType::Int16 | value_type::ValueType::Uint16 => 16,
+		value_type::ValueType::Int32 | value_type::ValueType::Uint32 => 32,
+		value_type::ValueType::Int64 | value_type::ValueType::Uint64 | value_type::ValueType::Usize
+			| value_type::ValueType::Pointer { .. } | value_type::ValueType::View { .. } => 64,
+		value_type::ValueType::Int128 | value_type::ValueType::Uint128 => 128,
+		_ => 0,
+	}
+}
+pub open spec fn signed<I: value_type::Identifier>(t: value_type::ValueType<I>) -> bool {
+	t is Int8 || t is Int16 || t is Int32 || t is Int64 || t is Int128
+}
+pub open spec fn pow2(n: nat) -> int decreases n { if n == 0 { 1 } else { 2 * pow2((n - 1) as nat) } }
+pub proof fn lemma_pow2_values()
+	ensures pow2(7) == 0x80, pow2(8) == 0x100, pow2(15) == 0x8000, pow2(16) == 0x10000, pow2(31) == 0x8000_0000, pow2(32) == 0x1_0000_0000,
+		pow2(63) == 0x8000_0000_0000_0000, pow2(64) == 0x1_0000_0000_0000_0000,
+		pow2(127) == 0x8000_0000_0000_0000_0000_0000_0000_0000, pow2(128) == 0x1_0000_0000_0000_0000_0000_0000_0000_0000,
+{
+	reveal_with_fuel(pow2, 33);
+	assert(pow2(32) == 0x1_0000_0000);
+	lemma_pow2_add(32, 31); lemma_pow2_add(32, 32); lemma_pow2_add(64, 63); lemma_pow2_add(64, 64);
+	assert(pow2(63) == 0x1_0000_0000 * 0x8000_0000);
+	assert(pow2(64) == 0x1_0000_0000 * 0x1_0000_0000);
+	assert(pow2(127) == 0x1_0000_0000_0000_0000 * 0x8000_0000_0000_0000) by { assert(pow2(127) == pow2(64) * pow2(63)); }
+	assert(pow2(128) == 0x1_0000_0000_0000_0000 * 0x1_0000_0000_0000_0000) by { assert(pow2(128) == pow2(64) * pow2(64)); }
+}
+proof fn lemma_pow2_add(a: nat, b: nat)
+	ensures pow2(a + b) == pow2(a) * pow2(b)
+	decreases b
+{
+	if b == 0 { } else {
+		lemma_pow2_add(a, (b - 1) as nat);
+		assert(pow2(a + b) == 2 * pow2((a + b - 1) as nat));
+		assert(2 * (pow2(a) * pow2((b - 1) as nat)) == pow2(a) * (2 * pow2((b - 1) as nat))) by (nonlinear_arith);
+	}
+}
+// the representable range of a type: two's complement if signed, else 0 .. 2^bits - 1 (non-integer types: only 0)
+pub open spec fn type_min(t: ValueType) -> int { if signed(t) { -pow2((bits(t) - 1) as nat) } else { 0 } }
+pub open spec fn type_max(t: ValueType) -> int {
+	if signed(t) { pow2((bits(t) - 1) as nat) - 1 } else if bits(t) > 0 { pow2(bits(t)) - 1 } else { 0 }
+}
+pub open spec fn in_range(v: int, t: ValueType) -> bool { type_min(t) <= v <= type_max(t) }
+pub proof fn lemma_range_straddles_zero(t: ValueType)
+	ensures type_min(t) <= 0 <= type_max(t),
+{
+	lemma_pow2_values();
+}
+pub open spec fn l1142(t: ValueType, location: Location) -> Lint {
+	Error::IntegerLiteralTruncation { value_type: t, location_of_literal: location }
+}
+// a literal of value v whose type has been resolved to t: L1142 iff v is outside the range of t
+pub open spec fn trunc_lit(v: int, vt: Option<Poisonable<ValueType>>, location: Location) -> Seq<Lint> {
+	match vt {
+		Some(Ok(t)) => if in_range(v, t) { Seq::empty() } else { seq![l1142(t, location)] },
+		_ => Seq::empty(),
+	}
+}
+// sub-expressions held in a Vec (array elements, structure members, call arguments)
+pub open spec fn n_kids(e: Expression) -> int {
+	match e {
+		Expression::ArrayLiteral { array, .. } => array.elements@.len() as int,
+		Expression::Structural { members, .. } => members@.len() as int,
+		Expression::FunctionCall { arguments, .. } => arguments@.len() as int,
+		_ => 0,
+	}
+}
+pub open spec fn kid(e: Expression, i: int) -> Expression {
+	match e {
+		Expression::ArrayLiteral { array, .. } => array.elements@[i],
+		Expression::Structural { members, .. } => members@[i].expression,
+		Expression::FunctionCall { arguments, .. } => arguments@[i],
+		_ => e,
+	}
+}
+// the L1142 lints of an expression tree, in traversal order (left to right)
+pub open spec fn trunc_e(e: Expression) -> Seq<Lint>
+	decreases e, n_kids(e) + 1
+{
+	match e {
+		Expression::Binary { left, right, .. } => trunc_e(*left) + trunc_e(*right),
+		Expression::Unary { expression, .. } => trunc_e(*expression),
+		Expression::SignedIntegerLiteral { value, value_type, location } => trunc_lit(value as int, value_type, location),
+		Expression::BitIntegerLiteral { value, value_type, location } => trunc_lit(value as int, value_type, location),
+		Expression::ArrayLiteral { .. } => trunc_kids(e, n_kids(e)),
+		Expression::Structural { .. } => trunc_kids(e, n_kids(e)),
+		Expression::FunctionCall { .. } => trunc_kids(e, n_kids(e)),
+		Expression::Parenthesized { inner, .. } => trunc_e(*inner),
+		Expression::Autocoerce { expression, .. } => trunc_e(*expression),
+		Expression::BitCast { expression, .. } => trunc_e(*expression),
+		Expression::TypeCast { expression, .. } => trunc_e(*expression),
+		Expression::Deref { reference, .. } => trunc_r(reference),
+		Expression::LengthOfArray { reference, .. } => trunc_r(reference),
+		_ => Seq::empty(),
+	}
+}
+pub open spec fn trunc_kids(e: Expression, k: int) -> Seq<Lint>
+	decreases e, k
+{
+	if 0 < k <= n_kids(e) { trunc_kids(e, k - 1) + trunc_e(kid(e, k - 1)) } else { Seq::empty() }
+}
+pub open spec fn trunc_r(r: Reference) -> Seq<Lint>
+	decreases r, r.steps@.len() + 1
+{
+	trunc_steps(r, r.steps@.len() as int)
+}
+pub open spec fn trunc_steps(r: Reference, k: int) -> Seq<Lint>
+	decreases r, k
+{
+	if 0 < k <= r.steps@.len() { trunc_steps(r, k - 1) + trunc_step(r.steps@[k - 1]) } else { Seq::empty() }
+}
+pub open spec fn trunc_step(s: ReferenceStep) -> Seq<Lint>
+	decreases s, 0int
+{
+	match s {
+		ReferenceStep::Element { argument, .. } => trunc_e(*argument),
+		_ => Seq::empty(),
+	}
+}
+// sanity of the oracle against the property text
+proof fn lemma_out_of_range_always_in_range_never(v: int, t: ValueType, location: Location)
+	ensures
+		!in_range(v, t) ==> trunc_lit(v, Some(Ok(t)), location) =~= seq![l1142(t, location)],
+		in_range(v, t) ==> trunc_lit(v, Some(Ok(t)), location).len() == 0,
+		t is Uint8 ==> (in_range(v, t) <==> 0 <= v <= 255),
+		t is Int8 ==> (in_range(v, t) <==> -128 <= v <= 127),
+		t is Int128 ==> (in_range(v, t) <==> i128::MIN <= v <= i128::MAX),
+		t is Uint128 ==> (in_range(v, t) <==> 0 <= v <= u128::MAX),
+{
+	lemma_pow2_values();
 }
